@@ -7,7 +7,11 @@ introspectable types installed behind hand-implemented `Introspectable` types, d
 public builders, `TypeId::compute_from_dyn`, `Introspection::from_dyn` and its
 Serialize/Deserialize) against the extracted model with UUIDv5 supplied by the OCaml driver, op by
 op; Python recomputes every root id as uuid5(namespace, model bytes) with hashlib; the monitor
-evaluates the property statement on the Rust outputs alone.
+evaluates the property statement on the Rust outputs alone.  Derive-consistency stream (per shard,
+deterministic): a fixed family of hand-written types (harness/src/intro_types.rs: implicit, explicit
+and mixed ids, optional/fallback members, tuple/unit/newtype shapes) whose `Introspectable` derive
+output is compared with what the `Serialize`/`Deserialize` derives of the same type do on the wire
+(ids, optional-ness, fallback, TypeId against explicit-id and position twins).
 """
 import hashlib
 import json
@@ -182,6 +186,18 @@ def correspondence(o, n, shards, seed):
         o.obligation_broken("uuid5(namespace, model's canonical bytes) differs from the implementation's TypeId on "
                             "%d of %d roots" % (len(hash_bad), hashed + len(hash_bad)), json.dumps(hash_bad[:3])[:3000])
     st = merge_stats(dirs)
+    # the derive-consistency stream is the same fixed family in every shard: report ONE shard's counts
+    derive = {}
+    for d in dirs:
+        try:
+            derive = json.load(open(os.path.join(d, "stats.json"))).get("derive_consistency", {})
+        except (OSError, ValueError):
+            continue
+        if derive:
+            break
+    if not derive.get("hand_written_types"):
+        o.obligation_broken("derive-consistency stream did not run (feature c20-macros / harness/src/intro_types.rs)",
+                            json.dumps(derive))
     o.coverage.update({
         "evaluations": compared,
         "distinct_nontrivial": st.get("distinct_nontrivial", 0),
@@ -199,12 +215,23 @@ def correspondence(o, n, shards, seed):
                 "Per shard additionally: the 7 types x 3 variants generated by aldrin::generate! from "
                 "harness/schemas/c20 (their IR graphs read back through the public accessors and run like any family; "
                 "ids equal between variants A and B, different between A and C exactly for the types that reach the "
-                "edited one) and one incoherent probe (recorded, outside the hypothesis)",
+                "edited one), one incoherent probe (recorded, outside the hypothesis), and the derive-consistency "
+                "stream: hand-written types with implicit / explicit / mixed ids (explicit followed by implicit, gaps, "
+                "descending, id 0, u32::MAX and wrap-around), optional and fallback members, tuple / unit / empty / "
+                "newtype structs, unit / empty-tuple / one-element variants, raw identifiers, nested and recursive "
+                "member types, doc/crate/ref_type attributes; per type the ids, required flags and fallback the "
+                "Introspectable derive reports are compared with the ids read off values serialized by the derived "
+                "Serialize (decoded as generic Value), with what the derived Deserialize accepts when a field is "
+                "missing / an unknown field or variant is present, and the TypeId with the id of the wire layout and "
+                "of the positional layout rebuilt through the public builders and with derived explicit-id and "
+                "position twins; every derived layout graph is also run against the model (counts: "
+                "coverage.derive_consistency_per_shard)",
         "samples": st.get("samples", []),
         "input_distribution": {k: st.get(k) for k in ("families", "nodes", "ops", "layout_kinds", "edit_kinds",
                                                       "result_classes", "root_on_a_cycle", "irrelevant_variations",
                                                       "edits_reachable", "edits_unreachable",
                                                       "edits_leaving_incoherent_universe", "incoherent_families")},
+        "derive_consistency_per_shard": derive,
         "type_ids_recomputed_with_python_uuid5": hashed,
         "monitor_failures": len(mon),
         "disagreements": ndiff,
@@ -228,6 +255,11 @@ def run(tier, seed):
         "and re-ordered, one semantic edit) are compiled into the harness with aldrin::generate!(.., introspection = "
         "true), i.e. through the code generator's Rust backend and the Introspectable derive macro; the aldrin-gen "
         "CLI front end (same backend) is not driven separately; random schemas are not generated",
+        "derive macros: monitored, not proved. For the fixed family of hand-written types in harness/src/intro_types.rs "
+        "the output of #[derive(Introspectable)] (ids, required flags, fallback, TypeId) is compared with the wire "
+        "behaviour of #[derive(Serialize, Deserialize)] of the same type; field/variant names and the fallback name are "
+        "written down by hand in the harness (the wire carries no names); types outside the family, the service! macro "
+        "and the derives' compile-time rejections are not covered",
     ]
     if os.path.exists(os.path.join(core.COQ, PROPS_FILE)):
         proof_side(o, PROPS_FILE, PINS)
@@ -237,7 +269,9 @@ def run(tier, seed):
     o.coverage["explanation"] = ("proved for all universes, all pop orders and every hash function: the hashed bytes "
                                  "are a function of the wire description (root layout and set of reachable layouts, "
                                  "both up to documentation) and determine it; record round trip; the hash itself and "
-                                 "random macro/code-generator output are outside (three fixed schema variants are driven)")
+                                 "random macro/code-generator output are outside (three fixed schema variants are "
+                                 "driven; derive output for a fixed family of hand-written types is monitored against "
+                                 "the wire, not a theorem)")
     n, shards = SIZES[tier]
     correspondence(o, n, shards, seed)
     if o.broken and not o.violations and tier == "quick":
@@ -252,11 +286,21 @@ def replay(path):
     r = json.load(open(path))
     print(json.dumps({k: v for k, v in r.items() if k != "input"}, indent=1)[:3000])
     inp = r.get("input", {})
-    if not inp.get("universe"):
+    derive = str(r.get("what", "")).startswith("derive consistency")
+    if not inp.get("universe") and not derive:
         return 0
     o = Outcome(PROP, "quick", 0)
     if not build(o):
         return 1
+    if derive:
+        # the family is fixed: re-run the derived Serialize/Deserialize/Introspectable of every hand-written type
+        dd = workdir("replay-derive")
+        rc, out, _ = core.sh(f"{core.harness_bin('intro')} derive {dd}", timeout=600)
+        print("--- derive-consistency stream on the real code (harness/src/intro_types.rs):")
+        print(out[:6000])
+        print("--- the layout the derive produced (`universe`) and the layout the wire uses (`variant`) on code and model:")
+        if not inp.get("universe") or inp.get("universe", "").startswith("U 0"):
+            return 0
     d = workdir("replay")
     lines = []
     for key in ("universe", "variant"):
